@@ -1,3 +1,4 @@
+import GramModel.Lemmas.TokenizerTie
 import GramModel.Lemmas.Lexer
 import GramModel.Lemmas.LexerGaps
 
@@ -262,3 +263,23 @@ theorem C09_errors_exact : C09_errors_exact_stmt := by
       · exact absurd h (by decide)⟩
   rw [tokenize_err h]
   exact scan_errors cc hp hcont text
+
+/-! ## The symbol arms of the scanner are the ones `tokenizer.rs` contains (regenerated on every run) -/
+
+/-- Every symbol arm of the first pass of `tokenize` — read off `tokenizer.rs` by `extract/arms.py`: first character, the
+second character if the arm peeks and consumes one, byte length, token kind — is a step of the model scanner, for every
+classifier, position, state and rest of the text (the one-character token when no two-character arm applies). -/
+def C09_symbol_arms_tie_stmt : Prop := ∀ r ∈ Generated.symbolArms, armHolds r
+theorem C09_symbol_arms_tie : C09_symbol_arms_tie_stmt := symbolArms_hold
+
+/-- The extracted arms are exactly the 18 entries of the symbol table over which the render/tokenize law is proved, and
+every token is as long as its text (all symbols are ASCII). -/
+def C09_symbol_table_tie_stmt : Prop :=
+  (∀ x, x ∈ armLexemes ↔ x ∈ symTable) ∧ armLexemes.length = symTable.length ∧
+  (∀ r ∈ Generated.symbolArms, r.2.2.1 = 1 + (match r.2.1 with | some _ => 1 | none => 0))
+theorem C09_symbol_table_tie : C09_symbol_table_tie_stmt := armLexemes_symTable
+
+/-- The order in which the scanner tries its arms is the one the model's `if`-chain follows: symbols (the line feed among
+them), identifier start (`is_alphabetic` or `_`), digit, whitespace, `#`, unexpected symbol. -/
+def C09_scan_arm_order_stmt : Prop := Generated.scanArmOrder = scanArmOrderExpected
+theorem C09_scan_arm_order : C09_scan_arm_order_stmt := by unfold C09_scan_arm_order_stmt; decide
